@@ -265,3 +265,74 @@ func Harness_C08_ReplyBeforeTrafficStall() {
 	vAssert("request-answered", replied)
 	vCover("reply-before-traffic-checked")
 }
+
+// calls of one caller to one callee whose queue is (at times) full: whatever
+// the callee takes out of its queue and whenever, the INVOCATIONs it receives
+// are in call order, every call is either delivered or refused at once, never both
+//
+//verif:virtual-clock
+func Harness_C08_CallOrderFullQueue() {
+	r := vNewRouter(&Config{RealmConfigs: []*RealmConfig{{URI: "realm1", AnonymousAuth: true}}})
+	caller := vAttach(r, "realm1", nil, 64)
+	callee := vAttach(r, "realm1", nil, 1)
+	vAssert("attached", caller != nil && callee != nil)
+	if caller == nil || callee == nil {
+		return
+	}
+	callee.send(&wamp.Register{Request: 1, Procedure: "p"})
+	callee.drain()
+	const n = 4
+	var seen []int64
+	take := func() {
+		select {
+		case m := <-callee.peer.Recv():
+			if inv, ok := m.(*wamp.Invocation); ok && len(inv.Arguments) == 1 {
+				k, _ := wamp.AsInt64(inv.Arguments[0])
+				seen = append(seen, k)
+			}
+		default:
+		}
+	}
+	for k := 1; k <= n; k++ {
+		caller.send(&wamp.Call{Request: wamp.ID(10 + k), Procedure: "p", Arguments: wamp.List{int64(k)}})
+		vQuiesce()
+		switch vChoice("between-calls", 3) {
+		case 1:
+			take()
+		case 2:
+			take()
+			vAdvance(int64(15) * 1000000)
+		}
+	}
+	for i := 0; i < n+1; i++ {
+		vAdvance(int64(1) * 1000000000)
+		vQuiesce()
+		take()
+	}
+	last := int64(0)
+	for _, k := range seen {
+		vAssert("invocations-arrive-in-call-order", k > last)
+		last = k
+	}
+	refused := map[wamp.ID]int{}
+	for _, m := range caller.drain() {
+		e, ok := m.(*wamp.Error)
+		vAssert("caller-sees-only-refusals", ok && e.Type == wamp.CALL && e.Error == wamp.ErrNetworkFailure)
+		if ok {
+			refused[e.Request]++
+		}
+	}
+	for k := 1; k <= n; k++ {
+		delivered := 0
+		for _, s := range seen {
+			if s == int64(k) {
+				delivered++
+			}
+		}
+		vAssert("each-call-delivered-or-refused-exactly-once", delivered+refused[wamp.ID(10+k)] == 1)
+	}
+	if len(seen) >= 2 {
+		vCover("several-calls-delivered")
+	}
+	r.Close()
+}
